@@ -13,11 +13,13 @@ NeedsField(t) == t \in {2, 5, 6, 7, 8}
 Ops == <<"lt", "lte", "gt", "gte", "eq", "neq">>
 Units == <<115, 109, 104, 100, 119, 77, 121>>
 Counts == <<1, 2, 59>>
-RefSets == <<(<<1>>), (<<2>>), (<<1, 2>>), (<<3, 1>>), (<<1, 2, 4>>), (<<4, 3, 2, 1>>)>>
+RefSets == <<(<<1>>), (<<2>>), (<<1, 2>>), (<<3, 1>>), (<<1, 2, 4>>), (<<4, 3, 2, 1>>), (<<5>>), (<<5, 2>>)>>     \* rule 5 is a correlation rule
 g1 == <<103,49>> al == <<97,108>> fA == <<102,105,101,108,100,65>> fX == <<102,105,101,108,100,88>> ff == <<102>>
 GroupVariants == <<[has |-> FALSE, gb |-> <<>>, aliases |-> <<>>],
                    [has |-> TRUE, gb |-> <<g1>>, aliases |-> <<>>],
-                   [has |-> TRUE, gb |-> <<g1, al>>, aliases |-> <<[alias |-> al, map |-> <<(<<1, fA>>), (<<2, fX>>)>>]>>]>>
+                   [has |-> TRUE, gb |-> <<g1, al>>, aliases |-> <<[alias |-> al, map |-> <<(<<1, fA>>), (<<2, fX>>)>>]>>],
+                   \* aliases without any group-by: the normalisation is emitted all the same
+                   [has |-> FALSE, gb |-> <<>>, aliases |-> <<[alias |-> al, map |-> <<(<<1, fA>>), (<<2, fX>>)>>]>>]>>
 Cond(kind, op, count, hasfield, haspct, expr) ==
     [kind |-> kind, op |-> op, count |-> count, hasfield |-> hasfield, field |-> ff, haspct |-> haspct, pct |-> 75, expr |-> expr]
 MkB(ts, ty, no, op, pi) == [tsmode |-> ts, typing |-> ty, norm |-> no, optin |-> op, pipe |-> pi]
@@ -30,12 +32,12 @@ Corr(t, refs, gv, ts, cond, gen) ==
                   THEN GroupVariants[gv].aliases ELSE <<>>),
      ts |-> ts, cond |-> cond, generate |-> gen]
 \* (A) every type x operator x unit, the other dimensions chosen by index
-CasesA == {[c |-> Corr(t, RefSets[((t + o + u) % 6) + 1], ((t + u) % 3) + 1, [count |-> Counts[((o + u) % 3) + 1], unit |-> Units[u]],
+CasesA == {[c |-> Corr(t, RefSets[((t + o + u) % 8) + 1], ((t + u) % 4) + 1, [count |-> Counts[((o + u) % 3) + 1], unit |-> Units[u]],
                        Cond("basic", Ops[o], Counts[((t + o) % 3) + 1], NeedsField(t), t = 7, <<>>), (t + o) % 2 = 0),
             B |-> BSeq[((t * 7 + o * 3 + u) % Len(BSeq)) + 1]] : t \in 1..8, o \in 1..6, u \in 1..7}
 \* (B) every backend template set x reference set x group-by variant
 CasesB == {[c |-> Corr(t, RefSets[r], gv, [count |-> 5, unit |-> 109], Cond("basic", "gte", 2, FALSE, FALSE, <<>>), gen), B |-> BSeq[b]] :
-             t \in {1, 3}, r \in 1..6, gv \in 1..3, b \in 1..Len(BSeq), gen \in (IF Quick THEN {FALSE} ELSE BOOLEAN)}
+             t \in {1, 3}, r \in 1..8, gv \in 1..4, b \in 1..Len(BSeq), gen \in (IF Quick THEN {FALSE} ELSE BOOLEAN)}
 \* (C) extended conditions over rule names r1 r2 r4
 r1 == <<114,49>> r2 == <<114,50>> r4 == <<114,52>>
 ExtAsts == {CBin("cand", CId(r1), CId(r2)), CBin("cor", CId(r1), CId(r2)), CBin("cand", CId(r1), CNot(CId(r2))),
